@@ -144,6 +144,6 @@ def w_argparse_required(k):
     return _nodflt("argparse", "rest", False)(k)
 
 
-ob("C02", "F21b.numpydoc_in_function", {"k": R(0, 4)}, tier="thorough", T=60, twin=False, funcs=FORMAT_FUNCS["function"], bound="witness of F21b")(w_numpydoc_in_code)
-ob("C02", "F22.class_google_return", {"k": R(0, 4)}, tier="thorough", T=60, twin=False, funcs=FORMAT_FUNCS["class"], bound="witness of F22")(w_class_google_return)
-ob("C02", "F23.argparse_required", {"k": R(0, 4)}, tier="thorough", T=60, twin=False, funcs=FORMAT_FUNCS["argparse"], bound="witness of F23")(w_argparse_required)
+ob("C02", "F21b.numpydoc_in_function", {"k": R(0, 4)}, tier="witness", T=60, twin=False, funcs=FORMAT_FUNCS["function"], bound="witness of F21b")(w_numpydoc_in_code)
+ob("C02", "F22.class_google_return", {"k": R(0, 4)}, tier="witness", T=60, twin=False, funcs=FORMAT_FUNCS["class"], bound="witness of F22")(w_class_google_return)
+ob("C02", "F23.argparse_required", {"k": R(0, 4)}, tier="witness", T=60, twin=False, funcs=FORMAT_FUNCS["argparse"], bound="witness of F23")(w_argparse_required)
